@@ -159,24 +159,72 @@ class PropertyRun:
             if not self.violations:
                 self.undecided.append({'function': '*', 'reason': msg})
 
-    def handle_open_obligation(self, case, res, v):
-        model = v.model
-        how = 'solver model (complete query)'
-        if model is None:
+    def _counter_model_args(self, case, res, v):
+        """counter-model search + witness extraction in a forked child with memory / CPU limits: the expansion of spec
+        functions and quantifiers can blow up on large VCs, and that must never take the checker down.
+        Returns (args | None, how, model_found)."""
+        import resource
+        import select
+        r, w = os.pipe()
+        pid = os.fork()
+        if pid == 0:
+            out = {'args': None, 'how': None, 'found': False}
             try:
-                model = solve.find_counterexample(v.ob, N=3, timeout_ms=8000)
-                how = 'counter-model of the VC with spec functions expanded for lengths <= 3'
-            except Exception as e:
-                model = None
+                os.close(r)
+                resource.setrlimit(resource.RLIMIT_AS, (6 << 30, 6 << 30))
+                resource.setrlimit(resource.RLIMIT_CPU, (90, 90))
+                model = v.model
+                how = 'solver model (complete query)'
+                if model is None:
+                    model = solve.find_counterexample(v.ob, N=3, timeout_ms=8000)
+                    how = 'counter-model of the VC with spec functions expanded for lengths <= 3'
+                if model is not None:
+                    out['found'], out['how'] = True, how
+                    if getattr(case, 'oracle', None):
+                        params = {k: p for k, p in res.witness_terms.items() if not k.startswith('_')}
+                        wit = getattr(case, 'witness', None)
+                        out['args'] = wit(model, params) if wit else {k: model_value(model, p) for k, p in params.items()}
+            except BaseException as e:
+                out['error'] = repr(e)[:300]
+            try:
+                os.write(w, json.dumps(out, default=str).encode())
+            finally:
+                os._exit(0)
+        os.close(w)
+        data = b''
+        deadline = time.time() + 120
+        while time.time() < deadline:
+            ready, _, _ = select.select([r], [], [], 1.0)
+            if ready:
+                chunk = os.read(r, 1 << 16)
+                if not chunk:
+                    break
+                data += chunk
+        else:
+            try:
+                os.kill(pid, 9)
+            except OSError:
+                pass
+        os.close(r)
+        try:
+            os.waitpid(pid, 0)
+        except OSError:
+            pass
+        try:
+            out = json.loads(data.decode()) if data else {}
+        except Exception:
+            out = {}
+        return out.get('args'), out.get('how'), bool(out.get('found'))
+
+    def handle_open_obligation(self, case, res, v):
+        args, how, found = self._counter_model_args(case, res, v)
+        model = True if found else None
         rec = {'property': self.pid, 'obligation': v.ob.name, 'path': v.ob.path, 'solver_status': v.status,
                'backend': v.backend, 'solver_detail': v.detail, 'function': case.qualname, 'case': case.case,
                'goal': str(v.ob.goal)[:2000]}
         confirmed = False
-        if model is not None and getattr(case, 'oracle', None):
+        if args is not None and getattr(case, 'oracle', None):
             try:
-                params = {k: p for k, p in res.witness_terms.items() if not k.startswith('_')}
-                wit = getattr(case, 'witness', None)
-                args = wit(model, params) if wit else {k: model_value(model, p) for k, p in params.items()}
                 rec['counter_model_from'] = how
                 rec['oracle'] = case.oracle
                 rec['oracle_modules'] = getattr(self.prop, 'ORACLE_MODULES', [])
